@@ -157,6 +157,10 @@ class Exec:
         if isinstance(v, VPartial): return z3.Const(f'partial_{getattr(v.func, "o", v.func)!r}'[:60], Obj)
         if isinstance(v, VExc): return z3.Const(f'exc_{v.cls.__name__}', Obj)
         raise Unsupported(f'object coercion of {type(v).__name__}')
+    def beff(self, s, v):
+        """truth-testing a general object runs its __bool__ (or __len__): recorded as an effect on that object (pure for bools / ints / constants)"""
+        if isinstance(v, VObj): return s.eff('bool', v.t, None)
+        return s
     def truth(self, v):
         if isinstance(v, VBool): return v.t
         if isinstance(v, VInt): return v.t != 0
@@ -240,7 +244,7 @@ class Exec:
                 for s2, v in self.eval(sub, s):
                     if idx == len(n.values) - 1:
                         outs.append((s2, v)); continue
-                    for s3, b in self.fork(s2, self.truth(v)):
+                    for s3, b in self.fork(self.beff(s2, v), self.truth(v)):
                         if b == is_and: nxt.append((s3, None))
                         else: outs.append((s3, v))
             cur = nxt
@@ -248,14 +252,14 @@ class Exec:
     def e_UnaryOp(self, n, st):
         outs = []
         for s, v in self.eval(n.operand, st):
-            if isinstance(n.op, ast.Not): outs.append((s, VBool(z3.simplify(z3.Not(self.truth(v))))))
+            if isinstance(n.op, ast.Not): outs.append((self.beff(s, v), VBool(z3.simplify(z3.Not(self.truth(v))))))
             elif isinstance(n.op, ast.USub): outs.append((s, VInt(-self.as_int(v))))
             else: raise Unsupported('unary op')
         return outs
     def e_IfExp(self, n, st):
         outs = []
         for s, c in self.eval(n.test, st):
-            for s2, b in self.fork(s, self.truth(c)):
+            for s2, b in self.fork(self.beff(s, c), self.truth(c)):
                 outs += self.eval(n.body if b else n.orelse, s2)
         return outs
     def e_Dict(self, n, st):
@@ -707,7 +711,7 @@ class Exec:
             return outs
         raise Unsupported('getattr form: ' + where)
     def b_bool(self, s, args, kw, where):
-        return [(s, VBool(self.truth(args[0])))]
+        return [(self.beff(s, args[0]), VBool(self.truth(args[0])))]
     def b_type(self, s, args, kw, where):
         if len(args) == 1: return [(s, VObj(M.typeof(self.obj(args[0]))))]
         raise Unsupported('type() 3-arg')
@@ -1068,7 +1072,7 @@ class Exec:
     def s_If(self, n, st):
         outs = []
         for s, c in self.eval(n.test, st):
-            for s2, b in self.fork(s, self.truth(c)):
+            for s2, b in self.fork(self.beff(s, c), self.truth(c)):
                 outs += self.exec_block(n.body if b else n.orelse, s2)
         return outs
     def s_Assert(self, n, st):
